@@ -282,7 +282,8 @@ def flow_layer(events, cid, info, vc, hook_types):
             ended_well = e.get("exit") == 0 and not e.get("signal")      # the recorder kills itself right after this record when told to
             if role != "postop" and not ended_well and not allowed:
                 out.append({"e": "HookFailed", "hook": e["hook"]})
-            if role in ("chal", "clean"):
+            if role in ("chal", "clean") and kv.get("is_clean_hook") in ("true", "false"):
+                # (as below: a challenge hook that is also listed for file events runs at those events too, without challenge variables)
                 out.append({"e": "ChalHook", "clean": role == "clean", "chal": kv.get("challenge", "none"), "htype": chal,
                             "identifier": kv.get("identifier", "none"), "file_name": nz(kv.get("file_name")),
                             "proof": nz(kv.get("proof")), "raw_proof": nz(kv.get("raw_proof")),
